@@ -22,6 +22,14 @@
 //	              ONE call outside any loop = one inner critical section; a RIB listing makes none)
 //	callsRib      the method (transitively) mentions the identifier Rib (lock order: RIB -> FIB only)
 //
+// For the NLSR readvertiser (fw/mgmt/nlsr_readvertiser.go: Announce/Withdraw run INSIDE the RIB critical
+// section, on whatever goroutine changes the RIB) a second table `readvertiser` records, per exported
+// method: lock = "Lock" when a top-level statement recv.mutex.Lock() exists and no statement before it
+// mentions the guarded map `advertised`; deferUnlock = the statement right after it is the matching
+// deferred unlock (so no path can leave with the mutex held); lockOps (2 = that pair only); sharedWrites;
+// fibCalls / callsRib = mentions of FibStrategyTable / Rib (a call back into the tables would re-enter the
+// RIB mutex the caller already holds).
+//
 // The Lean side (NdnVerif/C16/Props.lean) proves by evaluation that every method is disciplined.
 // This is a fact table with stated heuristics, not a data-flow analysis: behaviour is tied by the
 // race-detector / linearizability correspondence.
@@ -272,6 +280,62 @@ func analyse(d *ast.FuncDecl, byName map[string][]*ast.FuncDecl, seen map[*ast.F
 	})
 }
 
+// readvertiserFacts: the lock facts of NlsrReadvertiser's exported methods (see the header comment)
+func readvertiserFacts(repo string) string {
+	fset := token.NewFileSet()
+	file, err := parser.ParseFile(fset, filepath.Join(repo, "fw", "mgmt", "nlsr_readvertiser.go"), nil, 0)
+	var sb strings.Builder
+	sb.WriteString("def readvertiser : List MethodFact := [\n")
+	var rows []string
+	if err == nil {
+		for _, d := range file.Decls {
+			fd, ok := d.(*ast.FuncDecl)
+			if !ok || recvType(fd) != "NlsrReadvertiser" || !ast.IsExported(fd.Name.Name) || fd.Body == nil || fd.Name.Name == "String" {
+				continue
+			}
+			rn := recvName(fd)
+			lock, deferOK := "none", false
+			for i, st := range fd.Body.List {
+				touches := false
+				ast.Inspect(st, func(n ast.Node) bool {
+					if id, ok := n.(*ast.Ident); ok && id.Name == "advertised" {
+						touches = true
+					}
+					return true
+				})
+				if es, ok := st.(*ast.ExprStmt); ok {
+					if mu, meth := lockCall(es.X, rn); meth == "Lock" {
+						lock = "Lock"
+						if i+1 < len(fd.Body.List) {
+							if ds, ok := fd.Body.List[i+1].(*ast.DeferStmt); ok {
+								mu2, meth2 := lockCall(ds.Call, rn)
+								deferOK = mu2 == mu && meth2 == "Unlock"
+							}
+						}
+						break
+					}
+				}
+				if touches {
+					break // the guarded map is used before (or without) the lock
+				}
+			}
+			var f facts
+			analyse(fd, map[string][]*ast.FuncDecl{}, map[*ast.FuncDecl]bool{}, &f, true, "NlsrReadvertiser")
+			ast.Inspect(fd.Body, func(n ast.Node) bool {
+				if id, ok := n.(*ast.Ident); ok && id.Name == "FibStrategyTable" {
+					f.fibCalls++
+				}
+				return true
+			})
+			rows = append(rows, fmt.Sprintf("  ⟨%q, %q, %q, %v, %d, %d, %d, %d, %d, %d, %v⟩", "NlsrReadvertiser", fd.Name.Name, lock, deferOK, f.writes, f.live, f.lockOps, f.reentrant, f.fibCalls, f.fibCallsInLoop, f.callsRib))
+		}
+	}
+	sort.Strings(rows)
+	sb.WriteString(strings.Join(rows, ",\n"))
+	sb.WriteString("\n]\n")
+	return sb.String()
+}
+
 func main() {
 	repo, out := os.Args[1], os.Args[2]
 	dir := filepath.Join(repo, "fw", "table")
@@ -342,7 +406,9 @@ func main() {
 		}
 		fmt.Fprintf(&sb, "  ⟨%q, %q, %q, %v, %d, %d, %d, %d, %d, %d, %v⟩%s\n", m.recv, d.Name.Name, lock, deferOK, f.writes, f.live, f.lockOps, f.reentrant, f.fibCalls, f.fibCallsInLoop, f.callsRib, sep)
 	}
-	sb.WriteString("]\n\nend Ndn.Gen.C16\n")
+	sb.WriteString("]\n\n")
+	sb.WriteString(readvertiserFacts(repo))
+	sb.WriteString("\nend Ndn.Gen.C16\n")
 	old, _ := os.ReadFile(out)
 	if string(old) != sb.String() {
 		if err := os.WriteFile(out, []byte(sb.String()), 0o644); err != nil {
